@@ -8,6 +8,8 @@ pub mod panics;
 pub mod prng;
 
 #[cfg(not(feature = "net"))]
+pub mod decode;
+#[cfg(not(feature = "net"))]
 pub mod des;
 #[cfg(not(feature = "net"))]
 pub mod lockstep;
